@@ -1,7 +1,7 @@
 #!/venv/bin/python
 """Re-run ALL quick checks against every kept behaviour-preserving refactoring that still applies to /repo HEAD
 (seeded/*refactor*/patch.diff) - to be repeated whenever generators or oracles were strengthened.
-usage: recheck_refactors.py [name-substring]   (parallelism: VERIF_REF_PAR, default 3; VERIF_REF_RUNS=<n> runs per check instead of the quick default)"""
+usage: recheck_refactors.py [name-substring]   (parallelism: VERIF_REF_PAR, default 3; VERIF_REF_RUNS=<n> runs per check instead of the quick default; VERIF_REF_PROPS="C03 C04" re-runs only those checks)"""
 import concurrent.futures as cf
 import glob
 import json
@@ -31,8 +31,9 @@ def one(d):
         rc, log = sh(f"git apply {d}/patch.diff", cwd=w)
         if rc != 0:
             return name, None, "does not apply to HEAD"
-        checks = {}
-        for p in ALL:
+        only = os.environ.get("VERIF_REF_PROPS", "").split()      # restrict to some checks; the stored results of the others are kept
+        checks = dict(meta.get("confirmation", {}).get("checks", {})) if only else {}
+        for p in (only or ALL):
             env = dict(os.environ, VERIF_REPO=w, VERIF_OUT=f"{scratch}/out")
             runs = os.environ.get("VERIF_REF_RUNS")
             rcc, logc = sh(f"{VERIF}/check {p} --tier quick" + (f" --runs {int(runs)}" if runs else ""), cwd=VERIF, env=env)
